@@ -83,24 +83,35 @@ def observe(scn, request, resp, ev):
         ev.append({'ev': 'Tuple', 'ids': ids, 'vals_same': bool(vals_same and by_index == ids)})
 
 
-def run_one(scn, kind, loop, how=0):
+WARMUP = '[{"jsonrpc": "2.0", "id": 100, "result": "w0"}, {"jsonrpc": "2.0", "id": 101, "result": "w1"}]'
+
+
+def run_one(scn, kind, loop, how=0, warm=False):
+    """warm: the batch wrapper object (client.batch) has already made another round trip before this one"""
     text = render(scn['doc'])
     ev = []
+    replies = [text]
     if kind == 'async':
         class C(AbstractAsyncClient):
             async def _request(self, request_text, is_notification=False, **kwargs):
-                return text
+                return replies.pop(0) if len(replies) > 1 else replies[0]
     else:
         class C(AbstractClient):
             def _request(self, request_text, is_notification=False, **kwargs):
-                return text
+                return replies.pop(0) if len(replies) > 1 else replies[0]
     client = C(strict=scn['strict'])
     request = build(scn, how)
     try:
         if scn['mode'] == 'single':
             resp = loop.run_until_complete(client.send(request)) if kind == 'async' else client.send(request)
         else:
-            resp = loop.run_until_complete(client.batch.send(request)) if kind == 'async' else client.batch.send(request)
+            wrapper = client.batch
+            if warm:
+                replies.insert(0, WARMUP)
+                first = pjrpc.BatchRequest(pjrpc.Request('w', [0], id=100), pjrpc.Request('w', [1], id=101))
+                r0 = loop.run_until_complete(wrapper.send(first)) if kind == 'async' else wrapper.send(first)
+                assert r0 is not None
+            resp = loop.run_until_complete(wrapper.send(request)) if kind == 'async' else wrapper.send(request)
     except exceptions.DeserializationError:
         ev.append({'ev': 'Outcome', 'v': 'Deser', 'links': []})
     except exceptions.IdentityError:
@@ -122,7 +133,8 @@ if __name__ == '__main__':
     out = []
     import zlib
     for s in json.load(open(sys.argv[1])):
-        how = zlib.crc32(json.dumps(s, sort_keys=True).encode()) % 4     # not the position: the enumeration order is periodic
-        out.append(guarded(run_one)(s, 'sync', loop, how))
-        out.append(guarded(run_one)(s, 'async', loop, how))
+        h = zlib.crc32(json.dumps(s, sort_keys=True).encode())           # not the position: the enumeration order is periodic
+        how, warm = h % 4, (h // 4) % 2 == 1
+        out.append(guarded(run_one)(s, 'sync', loop, how, warm))
+        out.append(guarded(run_one)(s, 'async', loop, how, warm))
     json.dump(out, open(sys.argv[2], 'w'))
